@@ -17,6 +17,7 @@ class TranslateError(Exception):
     pass
 
 
+MODULE_CONSTS = set()
 BINOPS = {ast.Add: "+", ast.Sub: "-", ast.Mult: "*", ast.FloorDiv: "/", ast.Mod: "mod"}
 CMPOPS = {ast.Lt: "<?", ast.LtE: "<=?", ast.Gt: ">?", ast.GtE: ">=?", ast.Eq: "=?"}
 
@@ -25,7 +26,9 @@ def expr(e):
     if isinstance(e, ast.Constant) and isinstance(e.value, int) and not isinstance(e.value, bool):
         return str(e.value) if e.value >= 0 else "(%d)" % e.value
     if isinstance(e, ast.Name):
-        return "v_" + e.id
+        # module-level EASTER_* constants are emitted as Coq definitions of the same name;
+        # everything else is a local variable of the translated function
+        return e.id if e.id in MODULE_CONSTS else "v_" + e.id
     if isinstance(e, ast.BinOp) and type(e.op) in BINOPS:
         return "(%s %s %s)" % (expr(e.left), BINOPS[type(e.op)], expr(e.right))
     if isinstance(e, ast.UnaryOp) and isinstance(e.op, ast.USub):
@@ -149,6 +152,8 @@ def translate(src):
         if (isinstance(n, ast.Assign) and len(n.targets) == 1 and isinstance(n.targets[0], ast.Name)
                 and n.targets[0].id.startswith("EASTER_") and isinstance(n.value, ast.Constant)):
             consts[n.targets[0].id] = n.value.value
+    MODULE_CONSTS.clear()
+    MODULE_CONSTS.update(consts)
     d = fn.args.defaults
     if len(d) != 1 or not isinstance(d[0], ast.Name) or d[0].id not in consts:
         raise TranslateError("unexpected default for method")
